@@ -93,12 +93,12 @@ def RState.getState (imm : RImm) (s : RState) (keys : List String) (order : List
     cfgFor := if imm.allowDup then some s.cfgFor else none }
 
 /-- `RandomSearcher.clone_from_state(state)`: a fresh `RandomSearcher(config_space,
-points_to_evaluate=[], debug_log=self._debug_log, allow_duplicates=...)` followed by
-`_restore_from_state`.  `self._debug_log` is `None` when the searcher was built with
-`debug_log=False`, and the constructor asserts `isinstance(debug_log, DebugLogPrinter)`
-for a non-`bool` argument. -/
+points_to_evaluate=[], debug_log=False if self._debug_log is None else self._debug_log,
+allow_duplicates=...)` followed by `_restore_from_state` (code after the fix "clone_from_state
+raised AssertionError for the default debug_log=False": the constructor no longer
+rejects `debug_log = None`).  Restoring reads `state["config_for_trial_id"]` iff
+`allow_duplicates` (a snapshot without it is the `KeyError`). -/
 def RState.clone (imm : RImm) (snap : RSnap) : Except Err RState :=
-  if ¬ imm.debugLog then .error (.assertion "debug_log must either be bool or DebugLogPrinter") else
   -- set(state["excl_set"]): duplicates collapse
   let excl := snap.exclList.exclSet.eraseDups
   if imm.allowDup then
